@@ -333,7 +333,7 @@ theorem feed_insertAll (xs : List Item) (log : List Item) (g : Store) (c0 : Nat)
         simp [or_assoc]
 
 /-- `insert_all`/`remove_all` (and the tap) in terms of the specification of the run -/
-theorem tapped_run_eq (c : List Adapter) (sink : Sink (Store × Nat) Item StoreError)
+theorem tapped_run_eq {εs : Type} (c : List Adapter) (sink : Sink (Store × Nat) Item εs)
     (sc : List (Ev Item ε)) (g : Store) :
     (match tryForEachTriple (applyChain c rioSource) (tap sink) sc ([], (g, 0)) with
       | (s', (log, (g', n)), r) => (s', log, g', andOk r n)).2 =
@@ -890,6 +890,46 @@ theorem bulk_insert_all_incoherent_witness :
   revert this
   decide
 
+/-! ## Adapter sinks: `GraphAsDataset` -/
+
+theorem tap_log_ok {ι εs : Type} (f : Sink κ ι εs) (xs l : List ι) (k : κ)
+    (h : (feed (tap f) (l, k) xs).2 = .ok ()) : (feed (tap f) (l, k) xs).1.1 = l ++ xs := by
+  induction xs generalizing l k with
+  | nil => simp [feed]
+  | cons x xs ih =>
+    simp only [feed, tap] at h ⊢
+    rcases hf : f k x with ⟨k', r⟩
+    rw [hf] at h
+    cases r with
+    | error e => cases h
+    | ok u =>
+      cases u
+      simp only at h ⊢
+      rw [ih _ _ h]
+      simp
+
+/-- a quad in a named graph is THE sink fault of `graph.as_dataset_mut()`: if the chain delivers
+`pre ++ quad n (g+1) :: post` and the wrapped graph accepts `pre`, then `insert_all` was handed exactly
+`pre` and that quad, stored exactly `pre`, and returns `SinkError(OnlyDefaultGraph)` — nothing of `post` -/
+theorem gad_named_graph_is_sink_fault (c : List Adapter) (sc : List (Ev Item ε)) (g : Store)
+    (pre post : List Item) (n gn : Nat)
+    (hx : chainItems c (Ev.itemsOf sc) = pre ++ .quad n (gn + 1) :: post)
+    (hpre : (feed (tap gadInsertAllSink) ([], (g, 0)) pre).2 = .ok ()) :
+    (insertAllGad (applyChain c rioSource) sc g).2.1 = pre ++ [.quad n (gn + 1)] ∧
+    (insertAllGad (applyChain c rioSource) sc g).2.2.2 = some (.error (.sink .onlyDefaultGraph)) ∧
+    (insertAllGad (applyChain c rioSource) sc g).2.2.1 = (feed (tap gadInsertAllSink) ([], (g, 0)) pre).1.2.1 := by
+  have heq : (insertAllGad (applyChain c rioSource) sc g).2 = _ := tapped_run_eq c gadInsertAllSink sc g
+  simp only [heq]
+  unfold specResult
+  rw [hx, feed_append]
+  have hlog := tap_log_ok gadInsertAllSink pre [] (g, 0) hpre
+  rcases hf : feed (tap gadInsertAllSink) ([], (g, 0)) pre with ⟨⟨l, g1, c1⟩, r⟩
+  rw [hf] at hpre hlog
+  simp only at hpre hlog
+  subst hpre
+  subst hlog
+  simp [feed, tap, gadInsertAllSink, gadInsert, andOk]
+
 /-! ## Non-vacuity: the hypotheses are satisfiable by non-trivial values, and the statements
 speak about runs that really deliver, drop, map and fail -/
 
@@ -967,5 +1007,12 @@ example :
         (rioSource (ε := Nat)))
       (fun (k : List String) i => (k ++ [i], .ok ())) [.ok ["a", "bc"], .err ["def"] 4] []).2 =
       ((["bc!", "def!"], some (.error (.source 4))) : List String × Option (StreamResult Unit Nat Nat)) := by rfl
+
+/-- hypotheses of `gad_named_graph_is_sink_fault` -/
+example :
+    chainItems [] (Ev.itemsOf ([.ok [.quad 1 0, .quad 2 1, .quad 3 0]] : List (Ev Item Nat))) =
+      [.quad 1 0] ++ .quad 2 (0 + 1) :: [.quad 3 0] ∧
+    (feed (tap gadInsertAllSink) ([], ((⟨[], [], none⟩ : Store), 0)) [.quad 1 0]).2 = .ok () := by
+  constructor <;> rfl
 
 end SophiaProofs.C15
